@@ -42,6 +42,9 @@ type Run struct {
 	Sample     map[string]any
 	Exhaustive bool
 
+	// Reseed re-pins crypto/rand (set by Execute).
+	Reseed func(sub uint64)
+
 	viol *Violation
 	// Infra is set when the run could not be carried out for a reason that is
 	// not the system under test (harness bug, unsupported SQL...). Exit 2.
